@@ -59,6 +59,12 @@ pub fn text(c: &Case) -> String {
     match c.role.as_str() {
         "module" => format!("{n} DEFINITIONS AUTOMATIC TAGS ::= BEGIN\nA ::= BOOLEAN\nEND\n"),
         "type" => module("M", "AUTOMATIC", false, &format!("{n} ::= SEQUENCE {{ x BOOLEAN }}\nUser ::= SEQUENCE {{ f {n}, g SEQUENCE OF {n} }}")),
+        "typekind" => {
+            // the same name defined as every other kind of type (each kind has its own generator function)
+            let body = c.other.clone().unwrap_or_default();
+            let pre = if body == "Other" { "Other ::= BOOLEAN\n" } else { "" };
+            module("M", "AUTOMATIC", false, &format!("{pre}{n} ::= {body}\nUser ::= SEQUENCE {{ f {n}, g SEQUENCE OF {n} }}"))
+        }
         "component" => module("M", "AUTOMATIC", false, &format!("S ::= SEQUENCE {{ {n} BOOLEAN }}")),
         "alternative" => module("M", "AUTOMATIC", false, &format!("C ::= CHOICE {{ {n} BOOLEAN }}")),
         "enumeral" => module("M", "AUTOMATIC", false, &format!("E ::= ENUMERATED {{ {n} }}")),
@@ -210,6 +216,28 @@ impl Prop for C16 {
         for (t, o) in [("Ab", "ab"), ("AB", "aB"), ("A-b", "a-b"), ("Ab", "a-b"), ("A-B", "a-B"), ("Type", "type"), ("Self", "self"), ("A9", "a9"), ("A-9", "a9"), ("Az", "aZ")] {
             out.push(Case { role: "pair".into(), name: t.into(), other: Some(o.into()), ts: false });
         }
+        // every kind of type assignment under short names and keyword-like names
+        let kinds = ["SET { x BOOLEAN }", "CHOICE { x BOOLEAN }", "ENUMERATED { x }", "SEQUENCE OF BOOLEAN", "SET OF BOOLEAN", "SEQUENCE (SIZE (1..2)) OF INTEGER", "INTEGER", "INTEGER (0..5)", "BOOLEAN", "NULL", "OCTET STRING", "BIT STRING", "IA5String", "UTF8String (SIZE (1..3))", "OBJECT IDENTIFIER", "GeneralizedTime", "UTCTime", "Other", "[5] BOOLEAN"];
+        let mut tk_names: Vec<String> = all.iter().filter(|n| n.len() <= 3 && legal_asn(n, true) && !ASN_RESERVED.contains(&n.as_str())).cloned().collect();
+        for k in &kws {
+            let lower = k.to_lowercase().replace('_', "-");
+            let mut cap = lower.clone();
+            if let Some(f) = cap.get_mut(0..1) {
+                f.make_ascii_uppercase();
+            }
+            for n in [cap.clone(), format!("{cap}-X"), k.to_string()] {
+                if legal_asn(&n, true) && !ASN_RESERVED.contains(&n.as_str()) && (tier.thorough() || STRICT.contains(&k.as_str()) || n.contains('-')) {
+                    tk_names.push(n);
+                }
+            }
+        }
+        tk_names.sort();
+        tk_names.dedup();
+        for n in &tk_names {
+            for k in kinds {
+                out.push(Case { role: "typekind".into(), name: n.clone(), other: Some(k.to_string()), ts: false });
+            }
+        }
         // TypeScript: hyphen -> underscore only
         for n in all.iter().filter(|n| n.len() <= 3) {
             if legal_asn(n, true) && !ASN_RESERVED.contains(&n.as_str()) {
@@ -267,9 +295,10 @@ impl Prop for C16 {
         };
         match c.role.as_str() {
             "module" => check_name("module", &c.name, &Found { rust: m.name.clone(), identifier: None, has_identifier: false }, &mut discs, &ctx),
-            "type" => {
-                // the struct that is not `User`
-                let cand: Vec<&Item> = m.types().into_iter().filter(|i| i.name() != "User").collect();
+            "type" | "typekind" => {
+                // the item that is not `User`
+                let cand: Vec<&Item> = m.types().into_iter().filter(|i| i.name() != "User" && !(c.role == "typekind" && ((i.name() == "Other" && c.name != "Other") || i.name().starts_with("Anonymous")))).collect();
+                let class = if c.role == "typekind" { format!("{class}|as={}", c.other.clone().unwrap_or_default().split(|ch: char| ch == '{' || ch == '(').next().unwrap_or("").trim().replace(' ', "-")) } else { class.clone() };
                 if cand.len() != 1 {
                     located = false;
                     discs.push(Disc::new(format!("name|role=type|pattern={class}|kind=missing-item"), ctx.clone()));
